@@ -71,7 +71,8 @@ def run_case(rs, ctx):
     arms = list(gen.LABELS[labels][:n_arms])
     dims = int(rs.integers(1, 5))
     lp = gen.gen_lp(rs, lk, deterministic=True) if lk != "eg_explore" else {"kind": "eg", "epsilon": float(gen.pick(rs, [0.3, 1.0]))}
-    pre = {"arms": arms, "labels": labels, "lp": lp, "np": {"kind": pk}}
+    stress = int(rs.integers(5)) if (rs.integers(8) == 0 and lk not in ("linucb", "lingreedy")) else None
+    pre = {"arms": arms, "labels": labels, "lp": lp, "np": {"kind": pk}, "reward_stress": stress}
     n_chunks = int(rs.integers(1, 6))
     sizes = [int(rs.integers(3, 12))] + [int(rs.integers(1, 8)) for _ in range(n_chunks - 1)]
     chunks = [gen.gen_batch(rs, pre, arms, n, dims) for n in sizes]
@@ -107,7 +108,7 @@ def run_case(rs, ctx):
     else:
         k = int(rs.integers(1, sizes[0] + 1))
         npd = {"kind": "knn", "k": k, "metric": metric}
-    cfg = {"arms": arms, "labels": labels, "lp": lp, "np": npd, "seed": int(rs.integers(10 ** 6)),
+    cfg = {"arms": arms, "labels": labels, "lp": lp, "np": npd, "reward_stress": stress, "seed": int(rs.integers(10 ** 6)),
            "n_jobs": int(gen.pick(rs, [1, 1, 2])), "backend": gen.pick(rs, [None, "threading"])}
     if cfg["n_jobs"] == 1:
         cfg["backend"] = None
